@@ -177,3 +177,6 @@ func FlipBit(b []byte, i int) []byte {
 	c[i/8] ^= 1 << uint(i%8)
 	return c
 }
+
+// StreamOf returns the deterministic stream for a seed.
+func StreamOf(seed []byte) cipher.Stream { return blake2xb.New(seed) }
